@@ -433,6 +433,12 @@ impl Builtins {
             return Err(Error::new("Not a function!!".to_string().into(), fptr_pos));
         };
 
+        // Arguments are popped straight off the shared stack by the callee.
+        match *list.as_ref() {
+            C(Tuple(_, _)) => check_callback_arity(f, 2, "map over a tuple", &fptr_pos)?,
+            C(List(_, _)) | P(Str(_)) => check_callback_arity(f, 1, "map over a list or string", &fptr_pos)?,
+            _ => {}
+        }
         match *list.as_ref() {
             C(List(ref elems, ref elems_pos_list)) => {
                 let mut result_elems = Vec::new();
@@ -539,6 +545,12 @@ impl Builtins {
             return Err(Error::new("Not a function!!".into(), fptr_pos));
         };
 
+        // Arguments are popped straight off the shared stack by the callee.
+        match *list.as_ref() {
+            C(Tuple(_, _)) => check_callback_arity(f, 2, "filter over a tuple", &fptr_pos)?,
+            C(List(_, _)) | P(Str(_)) => check_callback_arity(f, 1, "filter over a list or string", &fptr_pos)?,
+            _ => {}
+        }
         match *list.as_ref() {
             C(List(ref elems, ref elems_pos_list)) => {
                 let mut result_elems = Vec::new();
@@ -687,6 +699,12 @@ impl Builtins {
             return Err(Error::new("Noe a function!".into(), fptr_pos));
         };
 
+        // Arguments are popped straight off the shared stack by the callee.
+        match *list.as_ref() {
+            C(Tuple(_, _)) => check_callback_arity(f, 3, "reduce over a tuple", &fptr_pos)?,
+            C(List(_, _)) | P(Str(_)) => check_callback_arity(f, 2, "reduce over a list or string", &fptr_pos)?,
+            _ => {}
+        }
         match *list.as_ref() {
             C(List(ref elems, ref elems_pos_list)) => {
                 for (counter, e) in elems.iter().enumerate() {
@@ -833,4 +851,22 @@ impl Builtins {
         stack.push((val, val_pos));
         Ok(())
     }
+}
+
+/// A callback of map/filter/reduce is invoked with a fixed number of arguments
+/// taken straight from the stack, so its arity has to match exactly.
+fn check_callback_arity(f: &super::Func, expected: usize, what: &str, pos: &Position) -> Result<(), Error> {
+    if f.bindings.len() != expected {
+        return Err(Error::new(
+            format!(
+                "{} expects a function of {} arguments but got one of {}",
+                what,
+                expected,
+                f.bindings.len()
+            )
+            .into(),
+            pos.clone(),
+        ));
+    }
+    Ok(())
 }
